@@ -1,4 +1,4 @@
-import Dicom.Proofs.PduSpec
+import Dicom.Proofs.PduSound
 import Dicom.Generated.Layouts
 /-! # C02 — the wire format matches the PS3.8 / PS3.7 PDU layouts
 
@@ -6,7 +6,10 @@ import Dicom.Generated.Layouts
 Annex D: every length field delimits a slice that must exist and be consumed exactly, widths and type
 codes are the standard's literals.  `WF₂` adds to C01's `WF` what the standard itself requires of an
 emitted PDU: the two sub-items that store their item length carry 4, the reserved block has 8 words,
-and an A-ASSOCIATE-RQ carries request contexts, an A-ASSOCIATE-AC response contexts. -/
+and an A-ASSOCIATE-RQ carries request contexts, an A-ASSOCIATE-AC response contexts.
+
+The converse (`conformant_decodes`) rests on `parsePdu_sound` (Proofs/PduSound.lean): the strict reader
+accepts only encodings of values, with every integer in wire range. -/
 namespace Dicom.C02
 open Dicom Dicom.Spec
 
@@ -177,5 +180,52 @@ theorem layouts_are_standard : Dicom.Generated.layouts = [
     (0x53, "AsynchronousOperationsWindowSubItem"), (0x54, "ScpScuRoleSelectionSubItem"),
     (0x55, "ImplementationVersionNameSubItem"), (0x56, "SOPClassExtendedNegotiationSubItem"),
     (0x58, "UserIdentityNegotiationSubItem"), (0x59, "UserIdentityNegotiationSubItemAc")] := by decide
+
+/-- **C02 (converse).** Any byte sequence the strict PS3.8/PS3.7 reader accepts — items and sub-items in
+any order, sub-item types the library does not know, any number of transfer syntaxes and PDVs — whose
+text is conformant (`Pdu.Conf`: AE titles ASCII and padded on the right only, UIDs ASCII without white
+space at the ends, names ASCII, User Identity fields well-formed UTF-8, no sub-item of type 0, User
+Information last) is decoded by the library
+to exactly the field values the strict reader yields (AE titles without their padding). -/
+theorem conformant_decodes (b : Bytes) (v : Pdu) (hp : parsePdu b = some v) (hc : v.Conf) :
+    decodePdu b = some (unpadTitles v) := by
+  obtain ⟨_, _, h⟩ := parsePdu_sound hp
+  obtain ⟨hwf, henc⟩ := h hc
+  rw [unpadTitles_eq]
+  conv => lhs; rw [← henc]
+  exact decodePdu_enc _ hwf
+
+/-- the strict reader accepts nothing but encodings: what it reads, written back field by field with
+the lengths recomputed, is the input -/
+theorem strict_reader_accepts_only_encodings (b : Bytes) (v : Pdu) (hp : parsePdu b = some v) :
+    v.encRaw = b ∧ v.Shape :=
+  ⟨(parsePdu_sound hp).1, (parsePdu_sound hp).2.1⟩
+
+/-- two byte sequences read strictly to the same values are the same bytes: the layout leaves no slack -/
+theorem strict_reader_injective (b₁ b₂ : Bytes) (v : Pdu) (h₁ : parsePdu b₁ = some v) (h₂ : parsePdu b₂ = some v) :
+    b₁ = b₂ := by
+  rw [← (parsePdu_sound h₁).1, ← (parsePdu_sound h₂).1]
+
+/-- non-vacuity: an A-ASSOCIATE-RQ the library would never emit itself — presentation context before
+the application context, two transfer syntaxes, an unknown sub-item (type 0x77) before Maximum Length —
+is accepted by the strict reader with conformant text -/
+def exBytes : Bytes :=
+  [1, 0, 0, 0, 0, 115, 0, 1, 0, 0, 65, 0, 0, 0, 0, 0, 0, 0, 0, 0, 0, 0, 0, 0, 0, 0, 66, 67, 0, 0, 0, 0, 0, 0, 0, 0,
+   0, 0, 0, 0, 0, 0, 0, 0, 0, 0, 0, 0, 0, 0, 0, 0, 0, 0, 0, 0, 0, 0, 0, 0, 0, 0, 0, 0, 0, 0, 0, 0, 0, 0, 0, 0, 0, 0,
+   32, 0, 0, 19, 1, 0, 0, 0, 48, 0, 0, 1, 49, 64, 0, 0, 1, 50, 64, 0, 0, 1, 51, 16, 0, 0, 2, 49, 46,
+   80, 0, 0, 14, 119, 0, 0, 2, 9, 9, 81, 0, 0, 4, 0, 0, 64, 0]
+
+def exValue : Pdu := .rq
+  { rsv1 := 0, protoVer := 1, rsv2 := 0,
+    called := [65, 0, 0, 0, 0, 0, 0, 0, 0, 0, 0, 0, 0, 0, 0, 0],
+    calling := [66, 67, 0, 0, 0, 0, 0, 0, 0, 0, 0, 0, 0, 0, 0, 0],
+    rsv3 := [0, 0, 0, 0, 0, 0, 0, 0],
+    items := [.pcRq 0 1 0 0 0 0 [49] [⟨0, [50]⟩, ⟨0, [51]⟩], .appCtx 0 [49, 46],
+              .userInfo 0 [.generic 119 0 [9, 9], .maxLen 0 4 16384]] }
+
+example : parsePdu exBytes = some exValue ∧ exValue.Conf := by
+  refine ⟨by decide +kernel, ?_⟩
+  simp [exValue, Pdu.Conf, Assoc.Conf, userInfoLast, Item.isUserInfo, Item.Conf, SubItem.Conf, TsSub.Conf, uidOk,
+    trimmed, ascii, stripLeft, isWs, pad16, strip]
 
 end Dicom.C02
